@@ -34,6 +34,7 @@ type SpecEnv struct {
 	where  string
 	fvs    map[string]fvBinding // captured variables (closures)
 	inSpecBody bool // translating the body of a spec function (no assumptions may be emitted)
+	noAutoPats bool
 	macroDepth int
 	entrySt     *State
 	entryLocals func(name string) (specVal, bool)
@@ -456,6 +457,16 @@ func (e *Engine) findSpec(pkg, name string) *SpecFunc {
 	if s, ok := e.specs[pkg+"\x00"+name]; ok {
 		return s
 	}
+	// qualified: pkgname.spec refers to a spec function of another package's contract file
+	if i := strings.Index(name, "."); i > 0 {
+		pn, sn := name[:i], name[i+1:]
+		for k, s := range e.specs {
+			j := strings.Index(k, "\x00")
+			if j > 0 && k[j+1:] == sn && (k[:j] == pn || strings.HasSuffix(k[:j], "/"+pn)) {
+				return s
+			}
+		}
+	}
 	if s, ok := e.specs["\x00"+name]; ok {
 		return s
 	}
@@ -545,6 +556,13 @@ func (env *SpecEnv) call(e *SExpr) specVal {
 		}
 		if e.Name == "forall" {
 			q := Forall(bvs, Implies(And(rng...), b))
+			if len(pts) == 0 && len(bvs) == 1 && bvs[0].S == SInt && q.Op == "forall" && !env.noAutoPats {
+				// no triggers given: the elements s[k] indexed by exactly the bound variable are the
+				// natural ones (chosen here rather than left to each solver's heuristics)
+				for _, c := range elemTriggers(b, bvs[0]) {
+					pts = append(pts, []*Term{c})
+				}
+			}
 			if len(pts) > 0 && q.Op == "forall" {
 				q.Pats = pts[0]
 				q.AltPats = pts[1:]
@@ -951,6 +969,48 @@ func (env *SpecEnv) assignLoc(e *SExpr) *assignLoc {
 	}
 	env.fail("unsupported assigns target %s", e)
 	return nil
+}
+
+// elemTriggers returns the slice/array element reads of t whose index is exactly the
+// bound variable bv and that mention no other bound variable and no ite (at most 3).
+func elemTriggers(t *Term, bv *Term) []*Term {
+	var out []*Term
+	seen := map[string]bool{}
+	var mentionsOtherBound func(x *Term) bool
+	mentionsOtherBound = func(x *Term) bool {
+		if len(x.Args) == 0 && x.lit == nil {
+			return x.Op != bv.Op && (strings.Contains(x.Op, "!q") || strings.Contains(x.Op, "!e") || strings.Contains(x.Op, "!b") || strings.Contains(x.Op, "!c"))
+		}
+		if x.Op == "ite" || x.Op == "forall" || x.Op == "exists" {
+			return true
+		}
+		for _, a := range x.Args {
+			if mentionsOtherBound(a) {
+				return true
+			}
+		}
+		return false
+	}
+	var walk func(x *Term, underQ bool)
+	walk = func(x *Term, underQ bool) {
+		if len(out) >= 3 {
+			return
+		}
+		isElem := (strings.HasPrefix(x.Op, "elem_") && len(x.Args) == 3 && same(x.Args[2], bv)) || (x.Op == "select" && len(x.Args) == 2 && same(x.Args[1], bv))
+		if isElem && !mentionsOtherBound(x.Args[0]) && (len(x.Args) < 3 || !mentionsOtherBound(x.Args[1])) {
+			k := x.String()
+			if !seen[k] {
+				seen[k] = true
+				out = append(out, x)
+			}
+			return
+		}
+		for _, a := range x.Args {
+			walk(a, underQ)
+		}
+	}
+	walk(t, false)
+	return out
 }
 
 // splitQuant splits forall/exists arguments into binders, body and trailing pattern(...) items.
